@@ -157,6 +157,10 @@ CurveExtCheck(c, e) ==
        [] c = "never_more_arrivals_beyond" -> \A x \in 0..H : (x > o.ext_last) => At(o.ext, x) <= At(o.orig, x)
        \* every sequence respecting the original prefix is still bounded: the tight curve is a floor
        [] c = "still_bounds_prefix_sequences" ->
-            (e.in.how # "b") => LET t == CurveEtaTable(d, H) IN \A i \in 1..Len(t) : o.ext[i] >= t[i]
+            LET t == IF e.in.how = "b"
+                     THEN \* sequences that respect the prefix and the supplied bound (njobs events span >= delta - 1)
+                          CurveEtaTableWithBound(d, e.in.arg[2], e.in.arg[1] - 1, H)
+                     ELSE CurveEtaTable(d, H)
+            IN \A i \in 1..Len(t) : o.ext[i] >= t[i]
 CurveExtFails(e) == {c \in CurveExtChecks : ~CurveExtCheck(c, e)}
 =============================================================================
